@@ -199,6 +199,9 @@ pub enum HeadFault {
     Wider { idx: usize, width: u8 },
     /// make the container / string with pre-order head index `idx` indefinite-length
     Indefinite { idx: usize },
+    /// write a different (lying) argument into the head with pre-order index `idx`, e.g. a
+    /// length or element count far larger than what follows
+    Lie { idx: usize, arg: u64 },
 }
 
 pub struct Encoder {
@@ -249,6 +252,11 @@ impl Encoder {
                 } else {
                     head(&mut self.out, major, n);
                 }
+                false
+            }
+            HeadFault::Lie { idx: i, arg } if i == idx => {
+                self.applied = arg != n;
+                head(&mut self.out, major, arg);
                 false
             }
             HeadFault::Indefinite { idx: i } if i == idx && (2..=5).contains(&major) => {
